@@ -47,5 +47,29 @@ pub fn search(_seed: u64, max_pattern: usize, max_subject: usize) -> Option<Stri
             }
         }
     }
+    // second pool: every printable ASCII character (and two non-ASCII ones) as a literal, in eight pattern shapes,
+    // against every subject of length <= 3 over {a, b, that character}
+    let mut literals: Vec<char> = (0x20u8..0x7f).map(|b| b as char).filter(|c| !['%', '_', '\\'].contains(c)).collect();
+    literals.push('\u{e9}');
+    literals.push('\u{3bb}');
+    for &c in literals.iter() {
+        let shapes: [Vec<char>; 8] = [vec![c], vec!['a', c], vec![c, 'a'], vec!['a', c, 'b'], vec![c, c], vec!['%', c], vec![c, '%'], vec!['_', c]];
+        let subjects = words(&['a', 'b', c], 3);
+        for p in shapes.iter() {
+            let ps: String = p.iter().collect();
+            let re_text = like_to_regex(&ps);
+            let re = match Regex::new(&re_text) {
+                Ok(re) => re,
+                Err(_) => return Some(format!("like-regex-compiles: LIKE '{}' is translated to '{}', which is not a regular expression", ps, re_text)),
+            };
+            for s in subjects.iter() {
+                let ss: String = s.iter().collect();
+                let want = like_matches(p, s);
+                if re.is_match(&ss) != want {
+                    return Some(format!("like-literal-matches-itself: '{}' LIKE '{}' should be {} but the translated regex '{}' gives {}", ss, ps, want, re_text, !want));
+                }
+            }
+        }
+    }
     None
 }
